@@ -13,8 +13,9 @@ package admin
 //@ import codes "google.golang.org/grpc/codes"
 
 //@ func (Server).RollbackTransaction
-//@   props C08, C06
-//@   requires req != nil
+//@   props C08, C06, C12
+//@   safe
+//@   requires req != nil && ctx != nil && s.transactionsStore != nil && s.configurationsStore != nil && s.pluginRegistry != nil
 //@   probe evState: evState(transactionEvent)
 //@   probe evSync: ite(evSync(transactionEvent), 1, 0)
 //@   probe evFailureType: ite(transactionEvent.Transaction.Status.Failure == nil, 0 - 1, transactionEvent.Transaction.Status.Failure.Type)
